@@ -78,6 +78,18 @@ pub fn run(sim: &Sim, prop: &str, tier: Tier) -> Outcome {
         };
         let first = gen_packet(sim, sizes, &[0x0a0b]);
         packets.push(first.clone());
+        // very rarely: so many maximum-size packets through one sender object that anything
+        // counting frames or bytes in 16 bits wraps
+        if sim.draw(30_000) == 29_999 {
+            for i in 0..18u32 {
+                packets.push(Packet {
+                    is_error: false,
+                    device_address: 0x0a0b,
+                    data: fill_pattern(0, i, 28672),
+                });
+            }
+            sim.probe("over_65536_frames_through_one_sender");
+        }
         // a short sequence of *related* packets through the same sender object
         if sim.chance(30) {
             let more = 1 + sim.draw(3);
@@ -91,7 +103,11 @@ pub fn run(sim: &Sim, prop: &str, tier: Tier) -> Outcome {
                             *b ^= 0x01;
                         }
                     }
-                    3 => p.data.push(0x5a),
+                    3 => {
+                        if p.data.len() < 28672 {
+                            p.data.push(0x5a);
+                        }
+                    }
                     _ => p = gen_packet(sim, SizeCfg { large_pct: 0, huge_pct: 0 }, &[0x0a0b]),
                 }
                 packets.push(p);
@@ -137,13 +153,37 @@ pub fn run(sim: &Sim, prop: &str, tier: Tier) -> Outcome {
 
     let mut tx = AnyLink::new(kind, Dev::new(sim, "tx", &back, &wire));
     let sig = |what: &str| format!("{}:{}", kind.name(), what);
-    let mut exp_bytes: Vec<u8> = Vec::new();
-    let mut exp_frames: Vec<bxcan::Frame> = Vec::new();
+    // the sender object may have a receive history (it is a full link endpoint): traffic,
+    // line noise, a frame cut short by a device error - none of it may leak into what it sends
+    if !placed_mode && kind.is_bytes() && sim.chance(15) {
+        let mut pre: Vec<crate::link_hostile::Item> = Vec::new();
+        let p = Packet {
+            is_error: false,
+            device_address: 0x0c0d,
+            data: fill_pattern(3, sim.draw(1000), sim.pick(&[3usize, 20, 9])),
+        };
+        let _ = crate::link_hostile::clean_packet_items(kind, &p, crate::link_hostile::Tag::Prefix, &mut pre);
+        crate::link_hostile::load(sim, &back, &pre);
+        back.borrow_mut().policy.hard_err_pm = sim.pick(&[0u32, 100, 300]);
+        for _ in 0..(1 + sim.draw(4)) {
+            let _ = crate::scenario::poll(sim, "tx", &mut tx, &back);
+        }
+        back.borrow_mut().policy.hard_err_pm = 0;
+        sim.probe("sender_has_receive_history");
+    }
     if packets.len() > 1 {
         sim.probe("several_packets_through_one_sender");
     }
 
     for (pi, packet) in packets.iter().enumerate() {
+        // each send is judged on what it appends to the stream (an earlier send may have
+        // ended in an error in mid-frame)
+        let mut exp_bytes: Vec<u8> = Vec::new();
+        let mut exp_frames: Vec<bxcan::Frame> = Vec::new();
+        let (start_bytes, start_frames) = {
+            let w = wire.borrow();
+            (w.bytes.len(), w.cframes.len())
+        };
         // expected stream: the library's own fragmenter and frame encoders define "its frames"
         let rfs = match frames_of(packet) {
             Ok(r) => r,
@@ -207,19 +247,19 @@ pub fn run(sim: &Sim, prop: &str, tier: Tier) -> Outcome {
         }
 
         // ---- what the device accepted so far vs. what was to be sent so far
+        let wbytes = &w.bytes[start_bytes..];
         let (is_prefix, is_equal, accepted_n, expected_n, first_diff) = if kind.is_bytes() {
-            let n = w.bytes.len().min(exp_bytes.len());
-            let diff = (0..n).find(|&i| w.bytes[i] != exp_bytes[i]);
+            let n = wbytes.len().min(exp_bytes.len());
+            let diff = (0..n).find(|&i| wbytes[i] != exp_bytes[i]);
             (
-                diff.is_none() && w.bytes.len() <= exp_bytes.len(),
-                diff.is_none() && w.bytes.len() == exp_bytes.len(),
-                w.bytes.len(),
+                diff.is_none() && wbytes.len() <= exp_bytes.len(),
+                diff.is_none() && wbytes.len() == exp_bytes.len(),
+                wbytes.len(),
                 exp_bytes.len(),
                 diff.unwrap_or(n),
             )
         } else {
-            let acc: Vec<&bxcan::Frame> = w
-                .cframes
+            let acc: Vec<&bxcan::Frame> = w.cframes[start_frames..]
                 .iter()
                 .filter_map(|u| match u {
                     CanUnit::Frame(f) => Some(f),
@@ -242,12 +282,12 @@ pub fn run(sim: &Sim, prop: &str, tier: Tier) -> Outcome {
                 format!(
                     "accepted[{}..]={} expected[{}..]={}",
                     a,
-                    hex(&w.bytes[a.min(w.bytes.len())..(i + 8).min(w.bytes.len())]),
+                    hex(&wbytes[a.min(wbytes.len())..(i + 8).min(wbytes.len())]),
                     a,
                     hex(&exp_bytes[a.min(exp_bytes.len())..(i + 8).min(exp_bytes.len())])
                 )
             } else {
-                let acc = w.cframes.get(i).map(|u| match u {
+                let acc = w.cframes.get(start_frames + i).map(|u| match u {
                     CanUnit::Frame(f) => show_can(f),
                     _ => "-".into(),
                 });
@@ -349,8 +389,9 @@ pub fn run(sim: &Sim, prop: &str, tier: Tier) -> Outcome {
             sim.count("sent_ok");
         } else {
             sim.count("sent_err_reported");
-            // the stream now ends inside a packet: nothing further can be judged
-            break;
+            if pi + 1 < packets.len() {
+                sim.probe("send_after_failed_send");
+            }
         }
     }
     Outcome::Pass
